@@ -33,8 +33,9 @@ let dec_product (s : Stdlib.String.t) : product =
 
 let dec_cfg (s : Stdlib.String.t) : config =
   match Stdlib.String.split_on_char ',' s with
-  | [f; r; m] -> { c_flavor = dec_str f; c_root = dec_str r;
-                   c_max_depth = (if m = "-" then None else Some (nat_of_int (int_of_string m))) }
+  | [f; r; m; k] -> { c_flavor = dec_str f; c_root = dec_str r;
+                      c_max_depth = (if m = "-" then None else Some (nat_of_int (int_of_string m)));
+                      c_keep = bool_of_field k }
   | _ -> failwith "bad cfg"
 
 let dec_decisions (s : Stdlib.String.t) : (ascii list) option list =
